@@ -81,7 +81,7 @@ def insert(X, motif, start=None, alphabet=['A', 'C', 'G', 'T']):
 	_validate_input(motif, "motif", shape=(-1, X.shape[1], -1), ohe=True)
 
 	if start is not None:
-		if start < 0 or start > (X.shape[-1] - motif.shape[-1]):
+		if start < 0 or start > X.shape[-1]:
 			raise ValueError("Provided start falls off the end of the sequence")
 	else:
 		start = X.shape[-1] // 2
